@@ -1,4 +1,5 @@
 import RactorModel.Model.Tree
+import RactorModel.Model.TreeConc
 import Driver.Common
 
 /-! Driver for the `Tree` model (C05), E-LTS part.
@@ -190,6 +191,9 @@ def oracle (prev cur : State) (mop : MOp) (r : String) : List String :=
         else if r == "false" then
           (if sameLinks prev cur then [] else ["C05.link-false-changed"])
         else ["C05.link-result"]
+      | .unlink c p =>
+        -- a stale unlink (`p` is not the child's supervisor) changes nothing
+        if prev.sup c != some p && !sameLinks prev cur then ["C05.stale-unlink-changed"] else []
       | .spawnlt _ _ =>
         if r == "ok" || r == "err" then [] else ["C05.spawn-result"]
       | .spawnl p =>
@@ -263,8 +267,58 @@ def stepsFor (kill : Bool) (s : State) (a : Nat) (g : Progress) : Nat := Id.run 
       k := k + 1
   return k
 
+/-! round 4: the same race through the concurrent machines of `Model/TreeConc.lean` (kill test and
+`take_children` as separate steps; the supervisor's machine and, afterwards, the machines of every actor
+that was sent the kill signal, round-robin) -/
+
+/-- the model keeps its maps as functions; tabulate them after every step so that a lookup does not walk
+(and, for the program counters, re-evaluate) the whole history of closures -/
+def normC (g : CState) : CState :=
+  let n := g.t.n + 1
+  let sup := (Array.range n).map g.t.sup
+  let kids := (Array.range n).map g.t.kids
+  let status := (Array.range n).map g.t.status
+  let killed := (Array.range n).map g.t.killed
+  let pc := (Array.range n).map g.pc
+  { t := { n := g.t.n, sup := fun x => (sup[x]?).getD none, kids := fun x => (kids[x]?).getD (some []),
+           status := fun x => (status[x]?).getD .unstarted, killed := fun x => (killed[x]?).getD false },
+    pc := fun x => (pc[x]?).getD .idle }
+
+def cstepN (g : CState) (op : COp) : CState := normC (cstep g op)
+
+/-- `k` steps of the one-machine model = that many statements of machine `a` of the concurrent model -/
+def concSteps (a : Nat) : Nat → X → CState → X × CState
+  | 0, x, g => (x, g)
+  | k + 1, x, g =>
+    let n := match x.pc with
+      | .pre (_ :: _) => 2 | .loop (_ :: _) => 2 | .detach => 2 | _ => 1
+    concSteps a k (xstep codeFixed a x) ((List.replicate n (COp.xstep a)).foldl cstepN g)
+
+/-- run machine `a` to its end -/
+def concFinish (a : Nat) : Nat → CState → CState
+  | 0, g => g
+  | f + 1, g => if g.pc a == .done || g.pc a == .idle then g else concFinish a f (cstepN g (.xstep a))
+
+/-- everybody who was sent the kill signal takes it; all machines run round-robin, until rest -/
+def concSettle : Nat → CState → CState
+  | 0, g => g
+  | f + 1, g =>
+    let ids := List.range g.t.n
+    let g1 := ids.foldl (fun g x => if g.t.killed x && g.pc x == .idle then cstepN g (.begin x true) else g) g
+    let busy := ids.filter (fun x => !(g1.pc x == .done || g1.pc x == .idle))
+    if busy.isEmpty then g1 else concSettle f (busy.foldl (fun g x => cstepN g (.xstep x)) g1)
+
+def concRace (kill : Bool) (s3 : State) (k : Nat) (racer : COp) (after : CState → CState) : State :=
+  let g0 := cstepN ⟨s3, fun _ => .idle⟩ (.begin 0 kill)
+  let (_, g1) := concSteps 0 k (xinit kill 0 s3) g0
+  -- the schedule point `tree.take` sits between the kill test and `take_children`
+  let g1 := match g1.pc 0 with | .term _ (_ :: _) none => cstepN g1 (.xstep 0) | _ => g1
+  let g2 := cstepN g1 racer
+  let g3 := concFinish 0 (8 * s3.n + 64) g2
+  (concSettle (8 * s3.n + 64) (after g3)).t
+
 /-- the model's prediction for one race case: result, mid-exit state, final state -/
-def raceModel (r : Race) (pts : List String) : MState × String × Nat × State × Bool :=
+def raceModel (r : Race) (pts : List String) : MState × String × Nat × State × Bool × State :=
   -- supervisor 0, children 1..nc, then the orphan (link) or the new child in `Starting` (spawn_linked)
   let s0 := setStatus (spawn init) 0 .running
   let s1 := (List.range r.nc).foldl (fun s i =>
@@ -296,7 +350,10 @@ def raceModel (r : Race) (pts : List String) : MState × String × Nat × State 
     else m0
   let m2 := settle codeFixed m1.t.n m1
   let resS := if r.spawnl then (if res then "ok" else "err") else if r.kind == "unlink" then "unit" else toString res
-  (m2, resS, c, mid, g.beyond)
+  let racer : COp := if r.kind == "relink" then .link 1 c else if r.kind == "unlink" then .unlink 1 0 else .link c d
+  let conc := concRace kill s3 k racer (fun g =>
+    if r.spawnl then (if res then cstepN g (.setStatus c .running) else concFinish c (8 * s3.n + 64) (cstepN g (.begin c false))) else g)
+  (m2, resS, c, mid, g.beyond, conc)
 
 def showSnap (t : State) (sep : String) : String :=
   sep.intercalate ((List.range t.n).map fun i => showActor { t := t } i)
@@ -305,12 +362,14 @@ def raceStep (r : Race) (impl : String) : StepOut :=
   let field (k : String) : String :=
     match (words impl).find? (·.startsWith (k ++ "=")) with | some w => (w.drop (k.length + 1)).toString | none => "?"
   let pts := if field "pts" == "-" then [] else splitOnChar (field "pts") ','
-  let (m, resS, c, mid, beyond) := raceModel r pts
+  let (m, resS, c, mid, beyond, conc) := raceModel r pts
   -- `at`: predicted for position 0 (the first schedule point of the exit), copied otherwise
   let at_ := if r.j == 0 then (if r.cause == "kill" then "tree.take" else
                  if r.cause == "drain" then field "at" else "status.publish") else field "at"
   let midS := if beyond then field "mid" else showSnap mid ";"
-  let model := s!"res={resS} at={at_} pts={field "pts"} mid={midS} | {showSnap m.t " "}"
+  -- the concurrent machines must arrive at the same final tree; if not, show theirs (a DIFF)
+  let concS := if showSnap conc " " == showSnap m.t " " then "" else " CONC=" ++ showSnap conc ";"
+  let model := s!"res={resS} at={at_} pts={field "pts"} mid={midS} | {showSnap m.t " "}{concS}"
   let orc := match impl.splitOn " |" with
     | [_, rest] =>
       match parseSnapshot? ("r=x |" ++ rest), parseSnapshot? ("r=x | " ++ (field "mid").replace ";" " ") with
@@ -347,7 +406,18 @@ def step (st : DState) (op impl : String) : DState × StepOut :=
     let stepd : Option (MState × Res × MOp) :=
       match parseMOp? ws with
       | some mop => let (m', r) := mstep codeFixed st.m mop; some (m', r, mop)
-      | none => (parseKOp? ws).map fun k => (kstep codeFixed st.m k, Res.unit, MOp.hold 0)
+      | none =>
+        match ws with
+        | [k, cnt, _mode] =>
+          -- a parent that links `cnt` children under itself in `pre_start` and then fails to start (Err, panic,
+          -- dropped start future; Send or thread-local): the cell, the children, then the lifecycle guard's cleanup
+          -- of the parent — nobody is told (`cleanup(None)`, and the parent has no supervisor)
+          if k == "spawnpre" || k == "spawnpret" then
+            let p := st.m.t.n
+            let ops : List MOp := [.spawn] ++ List.replicate (cnt.toNat?.getD 0) (.spawnl p) ++ [.abort p]
+            some (mrun codeFixed st.m ops, Res.err, MOp.hold 0)
+          else none
+        | _ => (parseKOp? ws).map fun k => (kstep codeFixed st.m k, Res.unit, MOp.hold 0)
     match stepd with
     | none => (st, { model := "bad-op" })
     | some (m', r, mop) =>
@@ -356,7 +426,12 @@ def step (st : DState) (op impl : String) : DState × StepOut :=
       | none => ({ st with m := m' }, { model := obs, oracle := ["unparsable"] })
       | some (ir, cur) =>
         let c07 := oracleC07 st cur ws impl
-        let orc := if st.onlyC07 then c07 else oracle st.v cur mop ir ++ c07
+        -- a failed start takes the subtree it had built: everybody this op created is Stopped
+        let pre : Bool := match ws with
+          | k :: _ => (k == "spawnpre" || k == "spawnpret") &&
+              !((List.range cur.n).all (fun i => i < st.v.n || cur.status i == .stopped))
+          | [] => false
+        let orc := if st.onlyC07 then c07 else oracle st.v cur mop ir ++ c07 ++ (if pre then ["C05.failed-start-left-subtree"] else [])
         -- non-trivial: an exit that took at least one other actor with it, a refused link / spawn,
         -- a relink, a children wrapper that had somebody to act on
         let stoppedBefore := (List.range st.m.t.n).countP (fun i => st.m.t.status i == .stopped)
